@@ -11,8 +11,10 @@
 import ast
 import re
 
-from sa.interp import Interp, Scenario, Sym, Const, Bytes, render, merge_consts
+from sa.interp import Interp, Scenario, Sym, Const, Bytes, Obj, render, merge_consts
 from sa.loader import AnalysisError, dotted
+from sa.condtab import split_filter, conj, table, atoms, same, skeleton
+from sa.looppaths import observe, path_cond, any_of, atom_value, fresh_objects, respell
 
 noinline = lambda f: False  # noqa: E731
 
@@ -32,65 +34,94 @@ def run(rep, prog, tier):
     attach(rep, prog)
 
 
+def _one_packet(body, text):
+    return len(body) == 1 and body[0][0] == 'SYM' and body[0][1] == text
+
+
+def _second(var):
+    """'($3_0, $3_1)' -> '$3_1' (the value of an .items() pair)."""
+    m = re.match(r'^\((\$[\d._]+), (\$[\d._]+)\)$', var)
+    return m.group(2) if m else None
+
+
 def export(rep, prog):
     f = prog.method('pgpy.pgp', 'PGPKey', '__bytearray__')
     rep.saw(fn=f)
+    want = ['KEY', 'KEYSIGS', 'UIDS', 'SUBKEYS']
+    me = f.params[0]
     for s in Interp(prog, Scenario(inline=noinline)).run(f):
         its = merge_consts(s.ret.items) if isinstance(s.ret, Bytes) else None
         if its is None:
             raise AnalysisError('PGPKey.__bytearray__ does not return bytes')
         kinds = []
+        sites = []          # (bound variable, filter conditions, key level?, collection text)
+        unfiltered = []     # (what, filter conditions) of the collections nothing may be dropped from
         for it in its:
-            if it[0] == 'SYM' and it[1] == 'self._key.__bytearray__()':
+            if it[0] == 'SYM' and it[1] == '%s._key.__bytearray__()' % me:
                 kinds.append('KEY')
             elif it[0] == 'EACH':
                 var, coll, body = it[1], it[2], it[3]
+                base, conds = split_filter(coll)
                 btxt = ' '.join(render_item(b) for b in body)
-                if '_uid.__bytearray__()' in btxt:
+                if base == '%s._uids' % me:
                     kinds.append('UIDS')
+                    unfiltered.append(('user ids', conds))
                     inner = [b for b in body if b[0] == 'EACH']
-                    rep.check(len(inner) == 1 and body[0][0] == 'SYM' and body[0][1] == '%s._uid.__bytearray__()' % var, 'C14.1', 'PGPKey.__bytearray__',
-                              'user id block %s' % btxt[:120], 'each user id / attribute packet is immediately followed by its own signatures', where=f.where)
+                    rep.check(len(inner) == 1 and len(body) == 2 and body[0][0] == 'SYM' and body[0][1] == '%s._uid.__bytearray__()' % var and body[1] is inner[0],
+                              'C14.1', 'PGPKey.__bytearray__', 'user id block %s' % btxt[:120],
+                              'each user id / attribute packet is immediately followed by its own signatures', where=f.where)
                     for b in inner:
-                        rep.check(('%s._signatures' % var) in b[2], 'C14.1', 'PGPKey.__bytearray__', 'uid signatures from %s' % b[2],
+                        ibase, iconds = split_filter(b[2])
+                        ok = ibase == '%s._signatures' % var and _one_packet(b[3], '%s.__bytearray__()' % b[1])
+                        rep.check(ok, 'C14.1', 'PGPKey.__bytearray__', 'uid signatures from %s: %s' % (ibase, render_item(b)[:100]),
                                   'the signatures after a user id must be that user id\'s signatures', where=f.where)
-                elif coll.startswith('self._children'):
+                        if ok:
+                            sites.append((b[1], iconds, False, b[2]))
+                elif base in ['%s.%s' % (me, x) for x in ('_children.values()', '_children.items()', 'subkeys.values()', 'subkeys.items()')]:
                     kinds.append('SUBKEYS')
-                    rep.check(btxt == '%s.__bytearray__()' % var, 'C14.1', 'PGPKey.__bytearray__', 'subkey block %s' % btxt,
+                    unfiltered.append(('subkeys', conds))
+                    elem = _second(var) if base.endswith('.items()') else var
+                    rep.check(_one_packet(body, '%s.__bytearray__()' % elem), 'C14.1', 'PGPKey.__bytearray__', 'subkey block %s' % btxt,
                               'subkeys are exported through the same method (packet, then its signatures)', where=f.where)
-                elif 'self._signatures' in coll:
+                elif base in ('%s._children' % me, '%s.subkeys' % me, '%s._children.keys()' % me):
+                    # a mapping iterates its keys
+                    kinds.append('SUBKEYS')
+                    unfiltered.append(('subkeys', conds))
+                    rep.check(_one_packet(body, '%s._children[%s].__bytearray__()' % (me, var)) or _one_packet(body, '%s.subkeys[%s].__bytearray__()' % (me, var)),
+                              'C14.1', 'PGPKey.__bytearray__', 'subkey block %s' % btxt,
+                              'subkeys are exported through the same method (packet, then its signatures)', where=f.where)
+                elif base == '%s._signatures' % me and _one_packet(body, '%s.__bytearray__()' % var):
                     kinds.append('KEYSIGS')
+                    sites.append((var, conds, True, coll))
                 else:
                     kinds.append('?(%s)' % coll[:40])
             else:
                 kinds.append('?(%s)' % render_item(it)[:40])
-        rep.check(kinds == ['KEY', 'KEYSIGS', 'UIDS', 'SUBKEYS'], 'C14.1', 'PGPKey.__bytearray__', 'sequence %s' % kinds,
+        rep.check(kinds == want, 'C14.1', 'PGPKey.__bytearray__', 'sequence %s' % kinds,
                   'a transferable key is the key packet, its signatures, user ids each with their signatures, then subkeys (RFC 4880 11.1)', where=f.where,
-                  expected=['KEY', 'KEYSIGS', 'UIDS', 'SUBKEYS'], found=kinds)
-    # filters at every signature emission site
-    sites = []
-    for n in ast.walk(f.node):
-        if isinstance(n, ast.For) and any(isinstance(c, ast.Call) and isinstance(c.func, ast.Attribute) and c.func.attr == '__bytearray__' and
-                                          isinstance(c.func.value, ast.Name) and c.func.value.id == ast.unparse(n.target)
-                                          for st in n.body for c in ast.walk(st)) and '_signatures' in ast.unparse(n.iter):
-            sites.append(n)
-    rep.check(len(sites) == 2, 'C14.1', 'PGPKey.__bytearray__', 'signature emission sites %d' % len(sites), 'key-level and user-id-level signature loops', where=f.where)
-    for n in sites:
-        comp = [c for c in ast.walk(n.iter) if isinstance(c, (ast.GeneratorExp, ast.ListComp))]
-        conds = [ast.unparse(i).replace(' ', '') for c in comp for g in c.generators for i in g.ifs]
-        flat = []
-        for c in conds:
-            flat.extend(x.strip('()') for x in c.split('and'))
-        v = ast.unparse(comp[0].generators[0].target) if comp else '?'
-        key_level = 'self._signatures' in ast.unparse(n.iter)
-        pos = '%s.exportable' % v in flat
-        rep.check(pos, 'C14.1', 'PGPKey.__bytearray__', 'filter at %s: %s' % (ast.unparse(n.iter)[:60], conds),
-                  'exactly the exportable signatures are exported: the filter must keep s.exportable (positive polarity)', where='%s:%d' % (f.module.relpath, n.lineno),
-                  expected='if s.exportable', found=conds)
-        extra = [x for x in flat if x not in ('%s.exportable' % v, 'not%s.embedded' % v)]
-        rep.check(not extra and (('not%s.embedded' % v in flat) == key_level), 'C14.1', 'PGPKey.__bytearray__', 'other filter terms %s' % extra,
-                  'no other condition may drop signatures; embedded cross-signatures are skipped only in the key-level list (they live inside their binding)',
-                  where='%s:%d' % (f.module.relpath, n.lineno), found=flat)
+                  expected=want, found=kinds)
+        for what, conds in unfiltered:
+            rep.check(not conds, 'C14.1', 'PGPKey.__bytearray__', '%s exported under %s' % (what, conds or 'no condition'),
+                      'every user id and every subkey of the key is exported', where=f.where, found=conds)
+        # filters at every signature emission site (as truth tables over the conditions of the emitted element)
+        rep.check(len(sites) == 2, 'C14.1', 'PGPKey.__bytearray__', 'signature emission sites %d' % len(sites), 'key-level and user-id-level signature loops', where=f.where)
+        for v, conds, key_level, coll in sites:
+            E, M = '%s.exportable' % v, '%s.embedded' % v
+            sk = conj(conds)
+            try:
+                tab, names = table(sk, [E])
+            except ValueError as ex:
+                raise AnalysisError('PGPKey.__bytearray__: filter too large (%s)' % ex)
+            rows = [(dict(zip(names, vals)), keep) for vals, keep in tab.items()]
+            pos = E in atoms(sk) and all(a[E] for a, keep in rows if keep) and any(keep for a, keep in rows)
+            rep.check(pos, 'C14.1', 'PGPKey.__bytearray__', 'filter at %s: %s' % (coll[:60], conds),
+                      'exactly the exportable signatures are exported: the filter must keep s.exportable (positive polarity)', where=f.where,
+                      expected='if s.exportable', found=conds)
+            extra = sorted(atoms(sk) - {E, M})
+            expect = ('and', [skeleton(E), ('not', skeleton(M))]) if key_level else skeleton(E)
+            rep.check(not extra and same(sk, expect), 'C14.1', 'PGPKey.__bytearray__', 'other filter terms %s (%s)' % (extra, conds),
+                      'no other condition may drop signatures; embedded cross-signatures are skipped only in the key-level list (they live inside their binding)',
+                      where=f.where, found=conds)
 
 
 def render_item(it):
@@ -101,196 +132,392 @@ def render_item(it):
 def exportable(rep, prog):
     f = prog.method('pgpy.pgp', 'PGPSignature', 'exportable')
     rep.saw(fn=f)
-    for present in (True, False):
-        sc = Scenario(inline=noinline, axioms={"('ExportableCertification' in self._signature.subpackets)": present})
-        for s in Interp(prog, sc).run(f):
-            r = render(s.ret)
-            if present:
-                rep.check(r == "bool(next(iter(self._signature.subpackets['ExportableCertification'])))", 'C14.2', 'PGPSignature.exportable', r,
+    me = f.params[0]
+    SP = '%s._signature.subpackets' % me
+    L = "%s['ExportableCertification']" % SP
+    present_atom = "'ExportableCertification' in %s" % SP
+    flag = set()
+    for first in ('next(iter(%s))' % L, '%s[0]' % L):
+        flag |= {'bool(%s)' % first, '%s.bflag' % first, 'bool(%s.bflag)' % first, '%s.__bool__()' % first}
+    seen = {True: 0, False: 0}
+    for s in Interp(prog, Scenario(inline=noinline)).run(f):
+        r = render(s.ret) if s.ret is not None else 'raises %s' % s.raised
+        present = atom_value(s.facts, present_atom)
+        other = sorted(atoms(path_cond(s.facts)) - {present_atom})
+        for case in ((True, False) if present is None else (present,)):
+            seen[case] += 1
+            if case:
+                rep.check(r in flag and not other, 'C14.2', 'PGPSignature.exportable', '%s%s' % (r, ' under %s' % other if other else ''),
                           'with the subpacket present the flag decides', where=f.where)
             else:
-                rep.check(r == 'True', 'C14.2', 'PGPSignature.exportable', 'default %s' % r, 'a signature without the subpacket is exportable', where=f.where,
-                          expected='True', found=r)
+                rep.check(r == 'True' and not other, 'C14.2', 'PGPSignature.exportable', 'default %s%s' % (r, ' under %s' % other if other else ''),
+                          'a signature without the subpacket is exportable', where=f.where, expected='True', found=r)
+    if not (seen[True] and seen[False]):
+        raise AnalysisError('PGPSignature.exportable has no returning path')
     B = prog.cls('pgpy.packet.subpackets.signature', 'Boolean')
     p = B.props.get('bflag')
     if p is None:
         raise AnalysisError('Boolean.bflag vanished')
     sb = p.setters.get('bytearray')
+    if sb is None or 'bool' not in p.setters:
+        raise AnalysisError('Boolean.bflag setters vanished')
+    backing = None
+    for s in Interp(prog, Scenario(inline=noinline)).run(p.getter):
+        r = render(s.ret)
+        m = re.match(r'^%s\.(\w+)$' % re.escape(p.getter.params[0]), r)
+        backing = m.group(1) if m else None
+        rep.check(m is not None and m.group(1) != 'bflag', 'C14.2', 'Boolean.bflag', r, 'the flag is read from the backing attribute', where=p.getter.where)
+    me, val = sb.params[0], sb.params[1]
+    decoded = ('bool(%s.bytes_to_int(%s))' % (me, val), '(%s.bytes_to_int(%s) != 0)' % (me, val))
     for s in Interp(prog, Scenario(inline=noinline, forward_stores=False)).run(sb):
         st = {pth: v for pth, v, l, _ in s.stores}
-        ok = st.get('self.bflag') == 'bool(self.bytes_to_int(val))' or st.get('self._bool') == 'bool(self.bytes_to_int(val))'
+        ok = st.get('%s.bflag' % me) in decoded or (backing is not None and st.get('%s.%s' % (me, backing)) in decoded)
         rep.check(ok, 'C14.2', 'Boolean.bflag_bytearray', 'stores %s' % st,
                   'the parsed flag octet must reach the attribute the flag is read from; otherwise an explicit exportable=true reads back as false, '
                   'the certification fails verification and is dropped on the next export', where=sb.where, expected='self.bflag = bool(...)', found=st)
-    for s in Interp(prog, Scenario(inline=noinline)).run(p.setters['bool']):
+    bs = p.setters['bool']
+    for s in Interp(prog, Scenario(inline=noinline)).run(bs):
         st = {pth: v for pth, v, l, _ in s.stores}
-        rep.check(st == {'self._bool': 'val'}, 'C14.2', 'Boolean.bflag_bool', '%s' % st, 'the boolean setter stores the backing attribute', where=sb.where)
-    for s in Interp(prog, Scenario(inline=noinline)).run(p.getter):
-        rep.check(render(s.ret) == 'self._bool', 'C14.2', 'Boolean.bflag', render(s.ret), 'the flag is read from the backing attribute', where=p.getter.where)
+        rep.check(backing is not None and st == {'%s.%s' % (bs.params[0], backing): bs.params[1]}, 'C14.2', 'Boolean.bflag_bool', '%s' % st,
+                  'the boolean setter stores the backing attribute', where=sb.where)
     bb = B.methods['__bool__']
     for s in Interp(prog, Scenario(inline=noinline)).run(bb):
-        rep.check(render(s.ret) == 'self.bflag', 'C14.2', 'Boolean.__bool__', render(s.ret), 'truthiness of the subpacket is its flag', where=bb.where)
+        rep.check(render(s.ret) in ('%s.bflag' % bb.params[0], 'bool(%s.bflag)' % bb.params[0]) or (backing is not None and render(s.ret) == '%s.%s' % (bb.params[0], backing)),
+                  'C14.2', 'Boolean.__bool__', render(s.ret), 'truthiness of the subpacket is its flag', where=bb.where)
     E = prog.cls('pgpy.packet.subpackets.signature', 'ExportableCertification')
     rep.check(B in E.mro() and ast.literal_eval(E.attrs['__typeid__']) == 0x04, 'C14.2', 'ExportableCertification', 'Boolean, type 4',
               'exportable certification is boolean subpacket type 4 (RFC 4880 5.2.3.11)', where=E.where)
+
+
+def _effects(events):
+    return [e for e in events if e[0] in ('store', 'ior', 'del', 'yield', 'raise', 'return')]
+
+
+def _attach_events(events):
+    """(target, value) of every `target |= value` / operator.ior(target, value) on a path."""
+    out = []
+    for e in events:
+        if e[0] == 'ior':
+            out.append((e[1], e[2]))
+        elif e[0] == 'call' and e[1] == 'operator.ior' and len(e[2]) == 2:
+            out.append((e[2][0], e[2][1]))
+    return out
+
+
+def _root(text, stop=None):
+    """Object a chain of `|` attachments started from: '((X | a) | b)' -> 'X' (not unfolded beyond `stop`)."""
+    while text != stop and text.startswith('(') and text.endswith(')'):
+        depth = 0
+        cut = None
+        for i, ch in enumerate(text):
+            if ch in '([{':
+                depth += 1
+            elif ch in ')]}':
+                depth -= 1
+            elif depth == 1 and text.startswith(' | ', i):
+                cut = i
+        if cut is None:
+            break
+        text = text[1:cut]
+    return text
+
+
+_ATTACHED = re.compile(r'\((\((?:\w+|PGPKey\(\)|PGPUID\(\)) \| next\(\$[\d._]+\)\)) \| \(PGPSignature\(\) \| \$[\d._]+\)\)')
+
+
+def unattach(t):
+    """`head |= PGPSignature() | sig` keeps the head object (C14.5 checks that `|` returns its left operand): after the loop over
+    the group's signatures the head is still the head, whichever path of the loop the interpreter summarised."""
+    while True:
+        n = _ATTACHED.sub(r'\1', t)
+        if n == t:
+            return t
+        t = n
+
+
+def _map_sk(sk, fn):
+    if sk is None:
+        return None
+    if sk[0] in ('and', 'or'):
+        return (sk[0], [_map_sk(x, fn) for x in sk[1]])
+    if sk[0] == 'not':
+        return ('not', _map_sk(sk[1], fn))
+    if sk[0] == 'cmp':
+        return ('cmp', sk[1], fn(sk[2]), fn(sk[3]))
+    if sk[0] == 'call':
+        return ('call', fn(sk[1]), [fn(a) for a in sk[2]])
+    if sk[0] == 'expr':
+        return ('expr', fn(sk[1]))
+    return sk
+
+
+HEADS = {'PubKeyV4': 'key', 'PrivSubKeyV4': 'key', 'UserID': 'uid', 'UserAttribute': 'uid'}
 
 
 def grouping(rep, prog):
     f = prog.method('pgpy.pgp', 'PGPKey', 'parse')
     rep.saw(fn=f)
     where = f.where
-    gb = [n for n in ast.walk(f.node) if isinstance(n, ast.Call) and dotted(n.func) in ('itertools.groupby', 'groupby')]
-    if len(gb) != 1 or not gb[0].args:
+    me = f.params[0]
+    outs, recs = observe(prog, f)
+    gb = []
+    for s in outs:
+        for c in s.calls:
+            if c[0] in ('itertools.groupby', 'groupby') and c[1] and (c[0], c[1], c[2]) not in [(g[0], g[1], g[2]) for g in gb]:
+                gb.append(c)
+    if len(gb) != 1:
         raise AnalysisError('PGPKey.parse: expected exactly one itertools.groupby over the packet stream')
-    stream = gb[0].args[0]
-    # ---- Trust packets removed from the stream BEFORE grouping
-    def trust_filtered(expr, depth=0):
-        if depth > 4:
-            return False
-        if isinstance(expr, ast.Name):
-            for n in ast.walk(f.node):
-                if isinstance(n, ast.Assign) and any(isinstance(t, ast.Name) and t.id == expr.id for t in n.targets):
-                    if trust_filtered(n.value, depth + 1):
-                        return True
-            return False
-        if isinstance(expr, ast.Call) and dotted(expr.func) == 'filter' and len(expr.args) == 2 and isinstance(expr.args[0], ast.Lambda):
-            b = expr.args[0].body
-            return isinstance(b, ast.Compare) and len(b.ops) == 1 and isinstance(b.ops[0], ast.NotEq) and \
-                ast.unparse(b.left).endswith('.header.tag') and ast.unparse(b.comparators[0]) == 'PacketTag.Trust'
-        if isinstance(expr, (ast.GeneratorExp, ast.ListComp)):
-            return any(ast.unparse(i).replace(' ', '').endswith('.header.tag!=PacketTag.Trust') for g in expr.generators for i in g.ifs)
-        if isinstance(expr, ast.Call) and dotted(expr.func) == 'iter' and expr.args:
-            return trust_filtered(expr.args[0], depth + 1)
-        return False
-    rep.check(trust_filtered(stream), 'C14.3', 'PGPKey.parse', 'packet stream %s' % ast.unparse(stream)[:80],
+    stream = gb[0][1][0]
+    keytext = gb[0][2].get('key', gb[0][1][1] if len(gb[0][1]) > 1 else None)
+    # ---- Trust packets removed from the stream BEFORE grouping (the value that reaches groupby is a filtered stream)
+    m = re.match(r'^EACH\((\$[\d.]+) in (.*);\1\)$', stream)
+    okf = False
+    if m is not None:
+        v, (base, conds) = m.group(1), split_filter(m.group(2))
+        trust = prog.cls('pgpy.constants', 'PacketTag').enum_members().get('Trust')
+        for t in ('PacketTag.Trust', repr(trust)):
+            for a in ('%s.header.tag == %s' % (v, t), '%s == %s.header.tag' % (t, v), '%s.header.typeid == %s' % (v, t)):
+                okf = okf or (bool(conds) and same(conj(conds), ('not', skeleton(a))))
+    rep.check(okf, 'C14.3', 'PGPKey.parse', 'packet stream %s' % stream[:100],
               'Trust packets (keyring-local) must be removed from the packet stream before grouping: a Trust packet that opens a group swallows the '
               'signatures that follow it', where=where, expected='groupby(filter(lambda p: p.header.tag != PacketTag.Trust, ...), ...)')
     # ---- group key changes exactly on non-signature packets
-    key = next((k.value for k in gb[0].keywords if k.arg == 'key'), gb[0].args[1] if len(gb[0].args) > 1 else None)
-    grouper_cls = [n for n in ast.walk(f.node) if isinstance(n, ast.ClassDef)]
-    ok = False
-    for c in grouper_cls:
-        call = [m for m in c.body if isinstance(m, ast.FunctionDef) and m.name == '__call__']
-        if not call:
-            continue
-        pv = call[0].args.args[1].arg if len(call[0].args.args) > 1 else 'pkt'
-        ifs = [n for n in call[0].body if isinstance(n, ast.If)]
-        rets = [n for n in call[0].body if isinstance(n, ast.Return)]
-        if len(ifs) == 1 and len(rets) == 1 and not ifs[0].orelse and \
-                ast.unparse(ifs[0].test).replace(' ', '') == '%s.header.tag!=PacketTag.Signature' % pv:
-            st = [x for x in ifs[0].body if isinstance(x, ast.Assign)]
-            ok = len(st) == 1 and ast.unparse(st[0].targets[0]) == ast.unparse(rets[0].value) and 'id(%s)' % pv in ast.unparse(st[0].value)
-    rep.check(ok, 'C14.3', 'PGPKey.parse.PktGrouper', 'group key', 'a new group starts at every packet that is not a signature, and only there '
+    grouper(rep, prog, f, keytext)
+    # ---- the loop over the groups: which groups are skipped
+    gl = [r for r in recs if re.match(r'^(itertools\.)?groupby\(', r.coll)]
+    if len({id(r.node) for r in gl}) != 1:
+        raise AnalysisError('PGPKey.parse: expected exactly one loop over the groups (found %d)' % len({id(r.node) for r in gl}))
+    mv = re.match(r'^\((\$[\d.]+_0), (\$[\d.]+_1)\)$', gl[0].var or '')
+    if mv is None:
+        raise AnalysisError('PGPKey.parse: the loop over the groups does not bind (label, group): %s' % gl[0].var)
+    K, G = mv.group(1), mv.group(2)
+
+    def takes_head(events):
+        return any(e[0] == 'call' and e[1] == 'next' and e[2][:1] == [G] for e in events)
+    opaque = skeleton("%s.endswith('Opaque')" % K)
+    for r in gl:
+        skipping = [p for p in r.paths if not takes_head(p[2])]
+        bad = [p for p in skipping if p[0] not in ('normal', 'continue') or _effects(p[2])]
+        skipped = ('or', [('not', conj(r.conds)), any_of(path_cond(p[1]) for p in skipping)])
+        desc = '%s%s' % (r.conds, [[x[0] for x in p[1]] for p in skipping] or '')
+        rep.check(not bad and same(skipped, opaque) and len(skipping) < len(r.paths), 'C14.3', 'PGPKey.parse', 'skipped groups %s' % desc,
+                  'only groups headed by an unknown (opaque) packet are skipped', where=where, expected="if not <key>.endswith('Opaque')", found=desc)
+    # ---- per kind of head packet: what the group's head becomes, where the group's signatures go, how the result is filed
+    keys = {render(s.ret) for s in outs if s.raised is None and s.ret is not None}
+    if len(keys) != 1:
+        raise AnalysisError('PGPKey.parse: result is not one collection (%s)' % sorted(keys))
+    KEYS = keys.pop()
+    recent = '%s[next(reversed(%s))]' % (KEYS, KEYS)
+    mro = {h: {c.name for c in prog.cls('pgpy.packet.packets', h).mro()} for h in HEADS}
+    seen = set()
+    for head, kind in HEADS.items():
+        for first in ((True, False) if kind == 'key' else (False,)):
+            def oracle(t, head=head):
+                m1 = re.match(r'^isinstance\(next\(%s\), (.+)\)$' % re.escape(G), t)
+                if m1:
+                    return any(n in mro[head] for n in re.findall(r'[A-Za-z_]\w*', m1.group(1)))
+                return None
+            _, rs = observe(prog, f, oracle=oracle, bind={'%s._key' % me: Const(None) if first else Sym('%s._key' % me, nonnull=True)})
+            H = '(%s | next(%s))' % ('PGPUID()' if kind == 'uid' else me if first else 'PGPKey()', G)
+            scen = '%s%s' % (head, ' (first key)' if first else '')
+            # signatures of the group
+            inner = [r for r in rs if r.coll == G]
+            att_ok = bool(inner)
+            detail = 'no loop over the group'
+            for r in inner:
+                names = fresh_objects(r.before.events)
+                attaching = [p for p in r.paths if _attach_events(p[2])]
+                others = [p for p in r.paths if not _attach_events(p[2])]
+                want_val = '(PGPSignature() | %s)' % r.var
+                one = all(len(_attach_events(p[2])) == 1 and unattach(respell(_attach_events(p[2])[0][0], names)) == H and _attach_events(p[2])[0][1] == want_val and
+                          len(_effects(p[2])) <= 1 and p[0] in ('normal', 'continue') for p in attaching)
+                quiet = all(not _effects(p[2]) and p[0] in ('normal', 'continue') for p in others)
+                kept = ('and', [conj(r.conds), any_of(path_cond(p[1]) for p in attaching)])
+                detail = 'each %s in group%s: %s' % (r.var, ''.join(' if ' + c for c in r.conds),
+                                                      [([x[0] if x[1] else 'not ' + x[0] for x in p[1]], _attach_events(p[2])) for p in attaching])
+                att_ok = att_ok and bool(attaching) and one and quiet and same(kept, ('not', skeleton('isinstance(%s, Opaque)' % r.var)))
+            if (kind, first, 'att', att_ok, detail) not in seen:
+                seen.add((kind, first, 'att', att_ok, detail))
+                rep.check(att_ok, 'C14.3', 'PGPKey.parse', 'signature attachment (%s) %s' % (scen, detail[:300]),
+                          'every signature packet of a group (except unparseable ones) is attached to the group\'s head - none dropped, merged or de-duplicated',
+                          where=where, expected='for sig in group: if not isinstance(sig, Opaque): %s |= PGPSignature() | sig' % H, scenario=scen)
+            # filing
+            for r in [x for x in rs if x.node is gl[0].node]:
+                taking = [p for p in r.paths if takes_head(p[2])]
+                if not taking:
+                    raise AnalysisError('PGPKey.parse: no path takes the head packet of a group with next(group)')
+                for status, facts, events, _ in taking:
+                    names = fresh_objects(r.before.events + events)
+                    norm = lambda t: unattach(respell(t, names))  # noqa: E731
+                    filed = [(norm(e[1]), norm(e[2])) for e in events if e[0] == 'store' and e[1].startswith(KEYS + '[')]
+                    facts = [(norm(t), v, _map_sk(sk, norm)) for t, v, sk in facts]
+                    primary = atom_value(facts, '%s.is_primary' % H) if kind == 'key' else False
+                    if primary is True:
+                        want = [('%s[(%s.fingerprint.keyid, %s.is_public)]' % (KEYS, H, H), H)]
+                        rule = 'each primary key packet starts a new key in the result (the first one fills self)'
+                    elif primary is False:
+                        want = [(recent, '(%s | %s)' % (recent, H))]
+                        rule = 'subkeys and user ids belong to the primary key that precedes them'
+                    else:
+                        want = None
+                        rule = 'a key packet is filed as a new key when it is a primary key, else under the most recent primary'
+                    okp = want is not None and filed == want and status in ('normal', 'continue')
+                    key_ = (kind, first, primary, okp, tuple(filed))
+                    if key_ in seen:
+                        continue
+                    seen.add(key_)
+                    rep.check(okp, 'C14.3', 'PGPKey.parse', 'filing (%s, primary=%s): %s [%s]' % (scen, primary, filed, status), rule, where=where,
+                              expected=want, found=filed, scenario=scen)
+
+
+def grouper(rep, prog, f, keytext):
+    from sa.loader import FunctionInfo
+    where = f.where
+    call = None
+    m = re.match(r'^(?:\w+\.)*(\w+)\(\)$', keytext or '')
+    mf = re.match(r'^<fn .*\.(\w+)>$', keytext or '')
+    if m is not None:
+        # an instance of a class: the key function is its __call__ (state lives on the instance).  The class is found by the
+        # value that reaches groupby - local to parse, nested in the owning class (self.K() / cls.K() / PGPKey.K()) or module level
+        cands = [n for n in ast.walk(f.node) if isinstance(n, ast.ClassDef) and n.name == m.group(1)]
+        if not cands and f.cls is not None:
+            for c in f.cls.mro():
+                cands += [n for n in c.node.body if isinstance(n, ast.ClassDef) and n.name == m.group(1)]
+        if not cands:
+            r = prog.lookup(f.module, m.group(1))
+            if hasattr(r, 'mro') and hasattr(r, 'node'):
+                cands = [r.node]
+        if len(cands) == 1:
+            call = next((x for x in cands[0].body if isinstance(x, ast.FunctionDef) and x.name == '__call__'), None)
+    elif mf is not None:
+        # a local function: state lives in a variable of the enclosing scope
+        call = next((n for n in ast.walk(f.node) if isinstance(n, ast.FunctionDef) and n.name == mf.group(1) and n is not f.node), None)
+    if call is None:
+        raise AnalysisError('PGPKey.parse: grouping key %s is neither an instance of a class with __call__ nor a local function' % keytext)
+    fi = FunctionInfo(call, f.module, None, outer=f)
+    if len(fi.params) != (2 if m is not None else 1):
+        raise AnalysisError('PGPKey.parse: grouping key function takes %s' % fi.params)
+    P = fi.params[-1]
+    sig = prog.cls('pgpy.constants', 'PacketTag').enum_members().get('Signature')
+    cands = ['%s.header.tag == PacketTag.Signature' % P, '%s.header.tag == %r' % (P, sig)]
+    ok = True
+    n_head = n_sig = 0
+    found = []
+    for s in Interp(prog, Scenario(inline=noinline)).run(fi):
+        is_sig = None
+        for a in cands:
+            v = atom_value(s.facts, a)
+            if v is not None:
+                is_sig = v
+        if is_sig is None:
+            v = atom_value(s.facts, 'isinstance(%s, Signature)' % P)
+            is_sig = v
+        st = [(p, v) for p, v, l, _ in s.stores]
+        r = render(s.ret) if s.ret is not None else None
+        found.append(([x[0] if x[1] else 'not ' + x[0] for x in s.facts], st, r))
+        if s.raised is not None or is_sig is None or len(atoms(path_cond(s.facts))) != 1:
+            ok = False
+        elif is_sig:
+            n_sig += 1
+            ok = ok and not st and r is not None and P not in re.findall(r'\w+', r)
+        else:
+            n_head += 1
+            ok = ok and len(st) == 1 and P not in re.findall(r'\w+', st[0][0]) and r == st[0][1] and 'id(%s)' % P in st[0][1]
+    state = {st[0][0] for _, st, _ in found if st} | {r for _, st, r in found if not st and r}
+    rep.check(ok and n_head >= 1 and n_sig >= 1 and len(state) == 1, 'C14.3', 'PGPKey.parse.PktGrouper', 'group key %s' % found,
+              'a new group starts at every packet that is not a signature, and only there '
               '(the key is unique per head packet and is kept for the signatures that follow)', where=where)
-    # ---- which groups are skipped
-    comp = [n for n in ast.walk(f.node) if isinstance(n, (ast.GeneratorExp, ast.ListComp)) and any(x is gb[0] for g in n.generators for x in ast.walk(g.iter))]
-    skipped = None
-    gvar = None
-    if len(comp) == 1:
-        g = comp[0].generators[0]
-        if isinstance(g.target, ast.Tuple) and len(g.target.elts) == 2:
-            kvar, gvar = ast.unparse(g.target.elts[0]), ast.unparse(g.target.elts[1])
-            conds = [ast.unparse(i).replace(' ', '') for i in g.ifs]
-            skipped = conds
-            okc = conds == ["not%s.endswith('Opaque')" % kvar]
-        else:
-            okc = False
-    else:
-        okc = False
-    rep.check(okc, 'C14.3', 'PGPKey.parse', 'skipped groups %s' % skipped, 'only groups headed by an unknown (opaque) packet are skipped', where=where,
-              expected="if not <key>.endswith('Opaque')", found=skipped)
-    # ---- every signature of the group is attached to the head object
-    loopvar = None
-    for n in ast.walk(f.node):
-        if isinstance(n, ast.For) and any(x is comp[0] for x in ast.walk(n.iter)) if comp else False:
-            loopvar = ast.unparse(n.target)
-    att = []
-    for n in ast.walk(f.node):
-        gens = []
-        if isinstance(n, (ast.ListComp, ast.GeneratorExp)):
-            gens = [(g, n.elt) for g in n.generators]
-        elif isinstance(n, ast.For):
-            gens = [(n, None)]
-        for g, elt in gens:
-            it = ast.unparse(g.iter)
-            if loopvar is not None and it == loopvar and 'PGPSignature' in ast.unparse(n):
-                att.append((n, g, elt))
-    ok = len(att) == 1
-    detail = None
-    if ok:
-        n, g, elt = att[0]
-        sv = ast.unparse(g.target)
-        conds = [ast.unparse(i).replace(' ', '') for i in getattr(g, 'ifs', [])]
-        detail = ast.unparse(n)[:140]
-        if elt is not None:
-            e = ast.unparse(elt).replace(' ', '')
-            m = re.match(r'^operator\.ior\((\w+),PGPSignature\(\)\|%s\)$' % re.escape(sv), e)
-            ok = m is not None and conds == ['notisinstance(%s,Opaque)' % sv]
-        else:
-            body = [ast.unparse(x).replace(' ', '') for x in n.body]
-            ok = len(body) == 1 and re.match(r'^(\w+)\|=PGPSignature\(\)\|%s$' % re.escape(sv), body[0]) is not None and not conds
-            if not ok and len(n.body) == 1 and isinstance(n.body[0], ast.If) and not n.body[0].orelse:
-                t = ast.unparse(n.body[0].test).replace(' ', '')
-                b = [ast.unparse(x).replace(' ', '') for x in n.body[0].body]
-                ok = t == 'notisinstance(%s,Opaque)' % sv and len(b) == 1 and re.match(r'^(\w+)\|=PGPSignature\(\)\|%s$' % re.escape(sv), b[0]) is not None
-    rep.check(ok, 'C14.3', 'PGPKey.parse', 'signature attachment %s' % (detail or 'not a single pass over the group'),
-              'every signature packet of a group (except unparseable ones) is attached to the group\'s head - none dropped, merged or de-duplicated',
-              where=where, expected='[operator.ior(pgpobj, PGPSignature() | sig) for sig in group if not isinstance(sig, Opaque)]')
-    # ---- filing
-    t = ast.unparse(f.node).replace(' ', '')
-    rep.check(re.search(r'=\(selfifself\._keyisNoneelsePGPKey\(\)\)\|\w+', t) is not None, 'C14.3', 'PGPKey.parse', 'key head',
-              'a key packet starts a key object (the first one fills self)', where=where)
-    rep.check(re.search(r'=PGPUID\(\)\|\w+', t) is not None, 'C14.3', 'PGPKey.parse', 'uid head', 'a user id / attribute packet starts an identity', where=where)
-    rep.check(re.search(r'keys\[\(?(\w+)\.fingerprint\.keyid,\1\.is_public\)?\]=\1', t) is not None, 'C14.3', 'PGPKey.parse', 'primary filed as a new key',
-              'each primary key packet starts a new key in the result', where=where)
-    n_recent = len(re.findall(r'keys\[next\(reversed\(keys\)\)\]\|=\w+', t))
-    rep.check(n_recent == 2, 'C14.3', 'PGPKey.parse', 'subkeys and identities go to the most recent primary (%d sites)' % n_recent,
-              'subkeys and user ids belong to the primary key that precedes them', where=where)
 
 
-def _copied_collections(fn):
-    """Collections of `self` whose elements are copied into the result: `for v in self.X[.items()|.values()]: <res> |= copy.copy(v)`
-    (the loop variable may be any name; a tuple target counts when one of its names is copied).  Returns {X: loop node}."""
+def _copy_loops(recs, me, root, mappings=()):
+    """{attribute of the original: (elements copied into `root` on every iteration?, skeleton of the condition under which an
+    element is left out, description)} for the summarised loops over `me.<attr>[.items()|.values()]`."""
     out = {}
-    selfname = fn.params[0]
-    for n in ast.walk(fn.node):
-        if not isinstance(n, ast.For):
-            continue
-        it = n.iter
-        if isinstance(it, ast.Call) and isinstance(it.func, ast.Attribute) and it.func.attr in ('items', 'values') and not it.args:
-            it = it.func.value
-        if not (isinstance(it, ast.Attribute) and isinstance(it.value, ast.Name) and it.value.id == selfname):
-            continue
-        names = {x.id for x in ast.walk(n.target) if isinstance(x, ast.Name)}
-        for st in ast.walk(n):
-            if isinstance(st, ast.AugAssign) and isinstance(st.op, ast.BitOr) and isinstance(st.value, ast.Call) and \
-                    dotted(st.value.func) == 'copy.copy' and st.value.args and isinstance(st.value.args[0], ast.Name) and st.value.args[0].id in names:
-                out[it.attr] = n
+    for r in recs:
+        mc = re.match(r'^(?:itertools\.)?chain\((.*)\)$', r.coll)
+        colls = _split_args(mc.group(1)) if mc else [r.coll]
+        for coll in colls:
+            _copy_loop(out, r, coll, me, root, len(colls) > 1, mappings)
     return out
+
+
+def _split_args(text):
+    out, depth, cur = [], 0, ''
+    for ch in text:
+        if ch in '([{':
+            depth += 1
+        elif ch in ')]}':
+            depth -= 1
+        if ch == ',' and depth == 0:
+            out.append(cur.strip())
+            cur = ''
+        else:
+            cur += ch
+    if cur.strip():
+        out.append(cur.strip())
+    return out
+
+
+def _copy_loop(out, r, coll, me, root, chained, mappings):
+    m = re.match(r'^%s\.(\w+)(\.items\(\)|\.values\(\))?$' % re.escape(me), coll)
+    if m is None:
+        return
+    elem = _second(r.var) if m.group(2) == '.items()' and not chained else r.var if m.group(2) != '.items()' and not r.var.startswith('(') else None
+    if elem is None:
+        return
+    if m.group(2) is None and m.group(1) in mappings:
+        want = ['copy.copy(%s[%s])' % (coll, r.var)]            # a mapping iterates its keys
+    else:
+        want = ['copy.copy(%s)' % elem]
+    copying = [p for p in r.paths if any(_root(t) == root and v in want for t, v in _attach_events(p[2]))]
+    others = [p for p in r.paths if p not in copying]
+    clean = all(len(_attach_events(p[2])) == 1 and p[0] in ('normal', 'continue') for p in copying) and \
+        all(not _effects(p[2]) and p[0] in ('normal', 'continue') for p in others)
+    left_out = ('or', [('not', conj(r.conds)), any_of(path_cond(p[1]) for p in others)])
+    desc = '%s%s' % (r.conds or '', [[x[0] if x[1] else 'not ' + x[0] for x in p[1]] for p in others] or '')
+    if copying:
+        out[m.group(1)] = (clean, left_out, desc, elem)
+
+
+def _fresh_copy_root(s, clsname):
+    """Text of the object a __copy__ path returns (the start of its `|=` chain) when that is a new object of clsname / of the
+    base-class copy; None otherwise."""
+    if s.ret is None or s.raised is not None:
+        return None
+    return _root(render(s.ret))
 
 
 def copies(rep, prog):
     K = prog.cls('pgpy.pgp', 'PGPKey')
     f = K.methods['__copy__']
     rep.saw(fn=f)
-    sup = [c for c in ast.walk(f.node) if isinstance(c, ast.Call) and isinstance(c.func, ast.Attribute) and c.func.attr == '__copy__' and
-           isinstance(c.func.value, ast.Call) and dotted(c.func.value.func) == 'super']
-    rep.check(len(sup) == 1, 'C14.4', 'PGPKey.__copy__', 'armor headers via Armorable.__copy__', 'a copy keeps the armor headers (built through the base class copy)',
-              where=f.where)
-    keyst = [n for n in ast.walk(f.node) if isinstance(n, ast.Assign) and isinstance(n.targets[0], ast.Attribute) and n.targets[0].attr == '_key']
-    rep.check(len(keyst) == 1 and ast.unparse(keyst[0].value) == 'copy.copy(self._key)', 'C14.4', 'PGPKey.__copy__',
-              'key packet: %s' % [ast.unparse(k) for k in keyst], 'a copy has its own copy of the key packet', where=f.where, expected='<copy>._key = copy.copy(self._key)')
-    cols = _copied_collections(f)
-    for attr, what in (('_uids', 'every user id and attribute'), ('_children', 'every subkey'), ('_signatures', 'every signature')):
-        rep.check(attr in cols, 'C14.4', 'PGPKey.__copy__', '%s copied: %s' % (attr, attr in cols), 'a copy carries %s' % what, where=f.where,
-                  expected='for x in self.%s: copy |= copy.copy(x)' % attr, found=sorted(cols))
-    if '_signatures' in cols:
-        # only embedded signatures may be skipped (they are re-derived from their binding signature when it is attached)
-        skips = [n for n in ast.walk(cols['_signatures']) if isinstance(n, ast.If) and any(isinstance(x, ast.Continue) for x in n.body)]
-        v = {x.id for x in ast.walk(cols['_signatures'].target) if isinstance(x, ast.Name)}
-        ok = all(ast.unparse(n.test) in ('%s.embedded' % name for name in v) for n in skips)
-        rep.check(ok, 'C14.4', 'PGPKey.__copy__', 'skipped signatures: %s' % [ast.unparse(n.test) for n in skips],
-                  'only embedded cross-signatures may be left out of a copy', where=f.where)
+    me = f.params[0]
+    outs, recs = observe(prog, f)
+    ini = K.methods['__init__']
+    mappings = set()
+    for s in Interp(prog, Scenario(inline=noinline)).run(ini):
+        for pth, v, l, _ in s.stores:
+            if pth.startswith(ini.params[0] + '.') and re.search(r'(\bdict|Dict)\(|^\{', v):
+                mappings.add(pth[len(ini.params[0]) + 1:])
+    for s in outs:
+        root = _fresh_copy_root(s, 'PGPKey')
+        base_copy = [c for c in s.calls if c[0] in ('super:Armorable.__copy__', 'Armorable.__copy__')]
+        rep.check(len(base_copy) == 1 and root is not None and '__copy__(' in root, 'C14.4', 'PGPKey.__copy__', 'armor headers via Armorable.__copy__ (%s)' % root,
+                  'a copy keeps the armor headers (built through the base class copy)', where=f.where)
+        st = {p: v for p, v, l, _ in s.stores}
+        rep.check(st.get('%s._key' % root) == 'copy.copy(%s._key)' % me, 'C14.4', 'PGPKey.__copy__',
+                  'key packet: %s' % {k: v for k, v in st.items() if k.endswith('._key')}, 'a copy has its own copy of the key packet', where=f.where,
+                  expected='<copy>._key = copy.copy(self._key)')
+        cols = _copy_loops(recs, me, root, mappings)
+        for attr, what in (('_uids', 'every user id and attribute'), ('_children', 'every subkey'), ('_signatures', 'every signature')):
+            rep.check(attr in cols and cols[attr][0], 'C14.4', 'PGPKey.__copy__', '%s copied: %s' % (attr, attr in cols), 'a copy carries %s' % what, where=f.where,
+                      expected='for x in self.%s: copy |= copy.copy(x)' % attr, found=sorted(cols))
+            if attr in cols:
+                clean, left_out, desc, elem = cols[attr]
+                # only embedded signatures may be skipped (they are re-derived from their binding signature when it is attached)
+                ok = same(left_out, ('const', False)) or (attr == '_signatures' and same(left_out, skeleton('%s.embedded' % elem)))
+                rep.check(ok, 'C14.4', 'PGPKey.__copy__', 'left out of %s: %s' % (attr, desc or 'nothing'),
+                          'only embedded cross-signatures may be left out of a copy', where=f.where)
     A = prog.cls('pgpy.types', 'Armorable')
     ac = A.methods['__copy__']
     outs = Interp(prog, Scenario(inline=noinline)).run(ac)
@@ -298,28 +525,40 @@ def copies(rep, prog):
     for s_ in outs:
         obj = render(s_.ret)
         st = {p: v for p, v, l, _ in s_.stores}
-        ok = st.get('%s.ascii_headers' % obj) == 'self.ascii_headers.copy()' and any(c[0] == 'self.__class__' for c in s_.calls)
+        ok = st.get('%s.ascii_headers' % obj) in ('%s.ascii_headers.copy()' % ac.params[0], 'copy.copy(%s.ascii_headers)' % ac.params[0]) and \
+            any(c[0] in ('%s.__class__' % ac.params[0], 'type(%s)' % ac.params[0]) for c in s_.calls)
     rep.check(ok, 'C14.4', 'Armorable.__copy__', 'headers copied into a new object of the same class', 'armor headers are copied', where=ac.where)
     U = prog.cls('pgpy.pgp', 'PGPUID')
     uf = U.methods['__copy__']
-    cols = _copied_collections(uf)
-    pk = [n for n in ast.walk(uf.node) if isinstance(n, ast.AugAssign) and isinstance(n.op, ast.BitOr) and ast.unparse(n.value) == 'copy.copy(self._uid)']
-    rep.check('_signatures' in cols and len(pk) == 1, 'C14.4', 'PGPUID.__copy__', 'packet copied %d, signatures copied %s' % (len(pk), '_signatures' in cols),
-              'a copied identity carries its packet and all its signatures', where=uf.where)
+    outs, recs = observe(prog, uf)
+    for s in outs:
+        root = _fresh_copy_root(s, 'PGPUID')
+        fresh = fresh_objects(s.events).get(root) == '%s()' % U.name or root == '%s()' % U.name
+        pk = [e for e in _attach_events(s.events) if _root(e[0]) == root and e[1] == 'copy.copy(%s._uid)' % uf.params[0]]
+        cols = _copy_loops(recs, uf.params[0], root)
+        sigs = '_signatures' in cols and cols['_signatures'][0] and same(cols['_signatures'][1], ('const', False))
+        rep.check(fresh and sigs and len(pk) == 1, 'C14.4', 'PGPUID.__copy__', 'new identity %s, packet copied %d, signatures copied %s' % (fresh, len(pk), sigs),
+                  'a copied identity carries its packet and all its signatures', where=uf.where)
     S = prog.cls('pgpy.pgp', 'PGPSignature')
     sf = S.methods['__copy__']
-    sup = [c for c in ast.walk(sf.node) if isinstance(c, ast.Call) and isinstance(c.func, ast.Attribute) and c.func.attr == '__copy__' and
-           isinstance(c.func.value, ast.Call) and dotted(c.func.value.func) == 'super']
-    pk = [n for n in ast.walk(sf.node) if isinstance(n, (ast.AugAssign, ast.Assign)) and ast.unparse(n.value) == 'copy.copy(self._signature)']
-    rep.check(len(sup) == 1 and len(pk) == 1, 'C14.4', 'PGPSignature.__copy__', 'headers via base copy %d, packet copied %d' % (len(sup), len(pk)),
-              'a copied signature carries its armor headers and a copy of its packet', where=sf.where)
+    for s in Interp(prog, Scenario(inline=noinline)).run(sf):
+        root = _fresh_copy_root(s, 'PGPSignature')
+        sup = [c for c in s.calls if c[0] in ('super:Armorable.__copy__', 'Armorable.__copy__')]
+        want = 'copy.copy(%s._signature)' % sf.params[0]
+        pk = [e for e in _attach_events(s.events) if _root(e[0]) == root and e[1] == want] + \
+            [x for x in s.stores if x[0] == '%s._signature' % root and x[1] == want]
+        rep.check(len(sup) == 1 and root is not None and '__copy__(' in root and len(pk) == 1, 'C14.4', 'PGPSignature.__copy__',
+                  'headers via base copy %d, packet copied %d' % (len(sup), len(pk)),
+                  'a copied signature carries its armor headers and a copy of its packet', where=sf.where)
     SP = prog.cls('pgpy.packet.fields', 'SubPackets')
     cp = SP.methods['__copy__']
+    me = cp.params[0]
     for s in Interp(prog, Scenario(inline=noinline)).run(cp):
         st = [(p, v) for p, v, l, _ in s.stores]
         obj = render(s.ret)
         d = dict(st)
-        rep.check(d.get('%s._hashed_sp' % obj) == 'self._hashed_sp.copy()' and d.get('%s._unhashed_sp' % obj) == 'self._unhashed_sp.copy()', 'C14.4',
+        okm = all(d.get('%s.%s' % (obj, a)) in ('%s.%s.copy()' % (me, a), 'copy.copy(%s.%s)' % (me, a)) for a in ('_hashed_sp', '_unhashed_sp'))
+        rep.check(okm, 'C14.4',
                   'SubPackets.__copy__', 'maps %s' % {k: v for k, v in d.items() if '_sp' in k}, 'a copied subpacket set carries both subpacket maps', where=cp.where)
         raw_idx = next((i for i, e in enumerate(s.events) if e[0] == 'store' and e[1].endswith('._hashed_raw')), None)
         late = [e for i, e in enumerate(s.events) if raw_idx is not None and i > raw_idx and e[0] == 'store' and "['h_'" in e[1].replace('(', '').replace('"', "'")]
@@ -333,7 +572,8 @@ def copies(rep, prog):
     for cname, kn in known.items():
         c = prog.cls('pgpy.pgp' if cname != 'SubPackets' else 'pgpy.packet.fields', cname)
         ini = c.methods['__init__']
-        attrs = set(n.attr for n in ast.walk(ini.node) if isinstance(n, ast.Attribute) and isinstance(n.ctx, ast.Store) and isinstance(n.value, ast.Name) and n.value.id == 'self')
+        attrs = set(n.attr for n in ast.walk(ini.node) if isinstance(n, ast.Attribute) and isinstance(n.ctx, ast.Store) and isinstance(n.value, ast.Name) and
+                    n.value.id == ini.params[0])
         new = attrs - kn
         if new:
             rep.error('C14.4', '%s.__init__ has unclassified attributes %s: cannot tell whether a copy must carry them' % (cname, sorted(new)))
@@ -341,66 +581,66 @@ def copies(rep, prog):
             rep.ok('C14.4', '%s.__init__' % cname, 'attributes %s all classified' % sorted(attrs))
 
 
-def _arms(fn):
-    """{class name tested by isinstance(other, X): (test, body)} of the if/elif chain at the top of __or__."""
-    out = {}
-    node = next((n for n in fn.node.body if isinstance(n, ast.If)), None)
-    chain = []
-    while isinstance(node, ast.If):
-        chain.append(node)
-        node = node.orelse[0] if len(node.orelse) == 1 and isinstance(node.orelse[0], ast.If) else None
-    # also a sequence of independent `if isinstance(...)` statements
-    for n in fn.node.body:
-        if isinstance(n, ast.If) and n not in chain:
-            chain.append(n)
-    for n in chain:
-        for c in ast.walk(n.test):
-            if isinstance(c, ast.Call) and dotted(c.func) == 'isinstance' and len(c.args) == 2:
-                names = [dotted(e) for e in (c.args[1].elts if isinstance(c.args[1], ast.Tuple) else [c.args[1]])]
-                for nm in names:
-                    out.setdefault(nm, (n.test, n.body))
-    return out
-
-
-def _has_call(body, func_text, arg_pred=None):
-    for st in body:
-        for c in ast.walk(st):
-            if isinstance(c, ast.Call) and ast.unparse(c.func) == func_text and (arg_pred is None or arg_pred(c)):
-                return True
-    return False
+def _typed(fn, clsname):
+    """Scenario arguments: the operand of __or__ is an instance of clsname."""
+    o = fn.params[1]
+    return o, {o: Sym(o, types={clsname}, nonnull=True)}
 
 
 def attach(rep, prog):
     K = prog.cls('pgpy.pgp', 'PGPKey')
     f = K.methods['__or__']
-    o = f.params[1]
-    arms = _arms(f)
-    sig = arms.get('PGPSignature')
-    ok = sig is not None and _has_call(sig[1], 'self._signatures.insort', lambda c: ast.unparse(c.args[0]) == o)
-    rep.check(ok, 'C14.5', 'PGPKey.__or__', 'signature arm inserts into self._signatures',
+    me = f.params[0]
+    # ---- a signature
+    o, args = _typed(f, 'PGPSignature')
+    outs, recs = observe(prog, f, args=args)
+    live = [s for s in outs if s.raised is None]
+    ins = bool(live) and all(sum(1 for c in s.calls if c[0] == '%s._signatures.insort' % me and c[1] == [o]) == 1 for s in live)
+    rep.check(ins, 'C14.5', 'PGPKey.__or__', 'signature arm inserts into self._signatures',
               'a signature is inserted into the key\'s sorted collection (never replacing another)', where=f.where)
-    emb = False
-    if sig is not None:
-        for n in [x for st in sig[1] for x in ast.walk(st) if isinstance(x, ast.If)]:
-            if ast.unparse(n.test).replace(' ', '') in ('%s.type==SignatureType.Subkey_Binding' % o, 'SignatureType.Subkey_Binding==%s.type' % o):
-                src = ' '.join(ast.unparse(x) for x in n.body)
-                parent = [x for st in n.body for x in ast.walk(st) if isinstance(x, ast.Assign) and isinstance(x.targets[0], ast.Attribute) and
-                          x.targets[0].attr == '_parent' and ast.unparse(x.value) == o]
-                emb = "%s._signature.subpackets['EmbeddedSignature']" % o in src and bool(parent) and \
-                    _has_call(n.body, 'self._signatures.insort', lambda c: ast.unparse(c.args[0]) == ast.unparse(parent[0].targets[0].value))
-    rep.check(emb, 'C14.5', 'PGPKey.__or__', 'embedded signatures extracted',
+    rep.check(bool(live) and all(render(s.ret) == me for s in live), 'C14.5', 'PGPKey.__or__', 'returns %s' % sorted({render(s.ret) for s in live}),
+              'attaching returns the key itself (`key |= x` keeps the key)', where=f.where)
+    binding = '%s.type == SignatureType.Subkey_Binding' % o
+    emb_coll = "%s._signature.subpackets['EmbeddedSignature']" % o
+    loops = [r for r in recs if r.coll in (emb_coll, "%s._signature.subpackets['h_EmbeddedSignature']" % o)]
+    emb = bool(loops)
+    detail = []
+    for r in loops:
+        when = atom_value(r.before.facts, binding)
+        E = '(PGPSignature() | %s)' % r.var
+        good = when is True and not r.conds
+        for status, facts, events, _ in r.paths:
+            linked = [e for e in events if e[0] == 'store' and e[1] == '%s._parent' % E and e[2] == o]
+            inserted = [e for e in events if e[0] == 'call' and e[1] == '%s._signatures.insort' % me and e[2] == [E]]
+            good = good and len(linked) == 1 and len(inserted) == 1 and status in ('normal', 'continue')
+            detail.append((when, [e[1:3] for e in events if e[0] == 'store'], [e[1:3] for e in events if e[0] == 'call' and e[1].endswith('.insort')]))
+        emb = emb and good
+    # every path of a subkey binding signature reaches the extraction
+    for s in live:
+        if atom_value(s.facts, binding) is True:
+            emb = emb and any(c[0] == '%s._signatures.insort' % me and c[1] and c[1][0].startswith('(PGPSignature() | ') for c in s.calls)
+    rep.check(emb, 'C14.5', 'PGPKey.__or__', 'embedded signatures extracted %s' % detail,
               'the cross-signature embedded in a subkey binding is made visible, linked to its binding signature', where=f.where)
-    ka = arms.get('PGPKey')
-    ok = ka is not None and any(ast.unparse(x).replace(' ', '') == '%s._parent=self' % o for st in ka[1] for x in ast.walk(st) if isinstance(x, ast.Assign)) and \
-        any(ast.unparse(x).replace(' ', '') == 'self._children[%s.fingerprint.keyid]=%s' % (o, o) for st in ka[1] for x in ast.walk(st) if isinstance(x, ast.Assign))
+    # ---- a subkey
+    o, args = _typed(f, 'PGPKey')
+    live = [s for s in Interp(prog, Scenario(inline=noinline, args=args)).run(f) if s.raised is None]
+    ok = bool(live)
+    for s in live:
+        st = {p: v for p, v, l, _ in s.stores}
+        ok = ok and st.get('%s._parent' % o) == me and st.get('%s._children[%s.fingerprint.keyid]' % (me, o)) == o and \
+            atom_value(s.facts, '%s.is_primary' % o) is False
     rep.check(ok, 'C14.5', 'PGPKey.__or__', 'subkey attached under its own key id, parent set', 'a subkey is attached to this key under its own key id', where=f.where)
-    ua = arms.get('PGPUID')
-    ok = ua is not None and any(ast.unparse(x).replace(' ', '') in ('%s._parent=weakref.ref(self)' % o, '%s._parent=self' % o) for st in ua[1] for x in ast.walk(st)
-                                if isinstance(x, ast.Assign)) and _has_call(ua[1], 'self._uids.insort', lambda c: ast.unparse(c.args[0]) == o)
+    # ---- an identity
+    o, args = _typed(f, 'PGPUID')
+    live = [s for s in Interp(prog, Scenario(inline=noinline, args=args)).run(f) if s.raised is None]
+    ok = bool(live)
+    for s in live:
+        st = {p: v for p, v, l, _ in s.stores}
+        ok = ok and st.get('%s._parent' % o) in ('weakref.ref(%s)' % me, me) and sum(1 for c in s.calls if c[0] == '%s._uids.insort' % me and c[1] == [o]) == 1
     rep.check(ok, 'C14.5', 'PGPKey.__or__', 'identity linked and inserted', 'an identity is linked to and inserted into this key', where=f.where)
     U = prog.cls('pgpy.pgp', 'PGPUID')
     uf = U.methods['__or__']
-    uo = uf.params[1]
-    sa = _arms(uf).get('PGPSignature')
-    rep.check(sa is not None and _has_call(sa[1], 'self._signatures.insort', lambda c: ast.unparse(c.args[0]) == uo), 'C14.5', 'PGPUID.__or__',
-              'signature inserted', 'a certification is inserted into the identity\'s collection', where=uf.where)
+    o, args = _typed(uf, 'PGPSignature')
+    live = [s for s in Interp(prog, Scenario(inline=noinline, args=args)).run(uf) if s.raised is None]
+    ok = bool(live) and all(sum(1 for c in s.calls if c[0] == '%s._signatures.insort' % uf.params[0] and c[1] == [o]) == 1 and render(s.ret) == uf.params[0] for s in live)
+    rep.check(ok, 'C14.5', 'PGPUID.__or__', 'signature inserted', 'a certification is inserted into the identity\'s collection', where=uf.where)
